@@ -400,9 +400,26 @@ func VerifStoreSyncMsg() {
 		notif.Update = append(notif.Update, &sdcpb.Update{Path: l.path(), Value: l.tv(v)})
 		msgs = append(msgs, &v13Msg{kind: v13Update, leaf: l, val: v})
 	}
+	// param "bad" = 1: the notification may additionally carry an update the converter rejects
+	// (a leaf the schema does not know, or a value that does not fit the leaf's type); the code
+	// then drops the WHOLE notification (logged), so nothing of it reaches the mirror
+	bad := 0
+	if verifrt.Param("bad", 0) == 1 {
+		bad = verifrt.Choice("bad", 3)
+		switch bad {
+		case 1:
+			notif.Update = append(notif.Update, &sdcpb.Update{Path: vPath(vPE("interface", "name", "lo1"), vPE("oper-state")), Value: vStrTV("up")})
+		case 2:
+			notif.Update = append(notif.Update, &sdcpb.Update{Path: vPath(vPE("interface", "name", "lo1"), vPE("mtu")), Value: vStrTV("jumbo")})
+		}
+	}
 	// within a notification deletes are applied before updates (gNMI)
-	for _, mm := range msgs {
-		m.apply(mm)
+	if bad == 0 {
+		for _, mm := range msgs {
+			m.apply(mm)
+		}
+	} else {
+		msgs = nil
 	}
 
 	ctx := context.Background()
